@@ -1,7 +1,7 @@
 """C01 - strapdown integration converges to the true navigation solution.
 
-Oracle: own RK4 solution of the NED navigation ODE on WGS-84 (pv/ref/navode.py) at two step
-sizes; halving-change rule  err(h) <= 4 * |X_h - X_{h/2}| + floor,  err(h/2) <= 0.75 err(h) + floor.
+Oracle: own RK4 solution of the NED navigation ODE on WGS-84 (pv/ref/navode.py); the SUT runs at step
+sizes h, h/2, h/4 (, h/8); rules  err(h_k) <= 4 * max(|X_hk - X_hk/2|, |X_hk/2 - X_hk/4|) + floor,  err(finest) <= 0.9 max(err(coarser)) + floor.
 The SUT path is exactly the user's: compute_increments_from_imu -> Integrator.integrate.
 """
 import numpy as np
@@ -145,27 +145,37 @@ def run_convergence(case, ctx):
     rph1 = ROT.rph_from_dcm(N.dcm_from_quat(ref1[:, 6:10]))
     tr_ref1['roll'], tr_ref1['pitch'], tr_ref1['heading'] = rph1[:, 0], rph1[:, 1], rph1[:, 2]
     referr = state_distance(tr_ref1, ref2)
-    a = sut_run(ctx, pva, P, T, h, stype, nout)
-    b = sut_run(ctx, pva, P, T, h / 2, stype, nout)
-    ctx.check(np.all(np.isfinite(a.values)) and np.all(np.isfinite(b.values)), 'not_finite', '')
-    eh = state_distance(a, ref2)
-    eh2 = state_distance(b, ref2)
-    d = table_distance(a, b)
+    # levels h, h/2, h/4 (and h/8 up to 300 s).  The error is a sum of terms of different orders in h (the Coriolis/transport
+    # terms are advanced with first-order accuracy, the rest with second order) which can cancel at one particular h, so
+    # neither |X_h - X_h/2| nor err(h/2)/err(h) is meaningful at a single pair of levels (seed-14 false alarm, DESIGN 9.3):
+    #   rule 1  err(h_k) <= 4 * max(change(h_k, h_k/2), change(h_k/2, h_k/4)) + floor
+    #   rule 2  err(finest) <= 0.9 * max(err(coarser levels)) + floor      (two-term worst case: 0.875 with 3, 0.53 with 4 levels)
+    nlev = 4 if T <= 300 else 3
+    runs = [sut_run(ctx, pva, P, T, h / 2 ** k, stype, nout) for k in range(nlev)]
+    ctx.check(all(np.all(np.isfinite(r.values)) for r in runs), 'not_finite', '')
+    errs = [state_distance(r, ref2) for r in runs]
+    chg = [table_distance(runs[k], runs[k + 1]) for k in range(nlev - 1)]
+    eh, eh2, d = errs[0], errs[1], chg[0]
     # accumulated float64 rounding is amplified by the unstable vertical channel (time constant sqrt(R/2g) ~ 570 s):
     # x cosh(T/570) for position and velocity (x1 at 300 s, x4 at 1200 s, x3600 at one Schuler period)
     amp_v = float(np.cosh(T * np.sqrt(2 * 9.8 / 6.37e6)))
     floor = FLOOR * np.array([amp_v, amp_v, max(1.0, T / 300.0)]) + 16 * referr
-    lim1 = 4 * d + floor
-    lim2 = 0.75 * eh + floor
-    info = (f'pva={pva.values.tolist()} type={stype} h={h} T={T} rate_amp={wamp:.3g} force_amp={famp:.3g}; err(h)={eh.tolist()} '
-            f'err(h/2)={eh2.tolist()} change={d.tolist()} ref_self_error={referr.tolist()}')
+    info = (f'pva={pva.values.tolist()} type={stype} h={h} T={T} rate_amp={wamp:.3g} force_amp={famp:.3g}; '
+            f'err by level={[e.tolist() for e in errs]} change by level={[c.tolist() for c in chg]} ref_self_error={referr.tolist()}')
+    lim1 = None
+    for k in range(nlev - 2):
+        lim = 4 * np.maximum(chg[k], chg[k + 1]) + floor
+        if k == 0:
+            lim1 = lim
+        for g in range(3):
+            ctx.stat(f'err_over_4x_halving_change_{NAMES[g]}', errs[k][g] / lim[g])
+            ctx.check(errs[k][g] <= lim[g], f'non_vanishing_error:{NAMES[g]}',
+                      lambda: f'{NAMES[g]} error {errs[k][g]:.3e} at h/{2 ** k} exceeds 4 x halving change + floor {floor[g]:.2e}: {info}')
+    lim2 = 0.9 * np.max(errs[:-1], axis=0) + floor
     for g in range(3):
-        ctx.stat(f'err_over_4x_halving_change_{NAMES[g]}', eh[g] / lim1[g])
-        ctx.stat(f'err_halved_over_0.75err_{NAMES[g]}', eh2[g] / lim2[g])
-        ctx.check(eh[g] <= lim1[g], f'non_vanishing_error:{NAMES[g]}',
-                  lambda: f'{NAMES[g]} error {eh[g]:.3e} exceeds 4 x halving change {d[g]:.3e} + floor {floor[g]:.2e}: {info}')
-        ctx.check(eh2[g] <= lim2[g], f'no_convergence:{NAMES[g]}',
-                  lambda: f'{NAMES[g]} error at h/2 {eh2[g]:.3e} not below 0.75 x error at h {eh[g]:.3e} + floor: {info}')
+        ctx.stat(f'err_finest_over_0.9max_coarser_{NAMES[g]}', errs[-1][g] / lim2[g])
+        ctx.check(errs[-1][g] <= lim2[g], f'no_convergence:{NAMES[g]}',
+                  lambda: f'{NAMES[g]} error at the finest level {errs[-1][g]:.3e} not below 0.9 x the largest coarser-level error + floor: {info}')
     disc = lim1[0] < 1.0 and lim1[1] < 0.01 and lim1[2] < 1e-5
     if disc:
         ctx.label('discriminating')
